@@ -54,9 +54,10 @@ class HasControlledBy:
         to be called from the write_target method
         """
         if self.controlled_by:
-            self.controlled_by = 0  # self
+            # first the hardware action: when it fails the controller is still in charge
             for deactivate_control in self.inputCallbacks.values():
                 deactivate_control(self.name)
+            self.controlled_by = 0  # self
 
     def update_target(self, module, value):
         """update internal target value
